@@ -77,6 +77,9 @@ pub struct RDebug {
 /// (crashed) target, so it may be corrupt, e.g. cyclic.
 const MAX_DSO_COUNT: usize = 16 * 1024;
 
+/// Upper bound on the number of entries of the dynamic section we look at.
+const MAX_DYNAMIC_ENTRIES: usize = 16 * 1024;
+
 /// Copies exactly `length` bytes from the target, a shorter (partial) read is an error.
 fn copy_exact(blamed_thread: i32, src: usize, length: usize) -> Result<Vec<u8>> {
     let data = PtraceDumper::copy_from_process(blamed_thread, src, length)?;
@@ -151,6 +154,13 @@ pub fn write_dso_debug_stream(
     // DSOs loaded into the program. If this information is indeed available,
     // dump it to a MD_LINUX_DSO_DEBUG stream.
     loop {
+        // Like the list of DSOs this lives in the memory of the (crashed) target: a corrupt
+        // header can point anywhere, e.g. into a vast region without a terminating entry.
+        if dynamic_length / dyn_size >= MAX_DYNAMIC_ENTRIES {
+            return Err(SectionDsoDebugError::CouldNotFind(
+                "DT_NULL in the dynamic section",
+            ));
+        }
         let dyn_data = copy_exact(
             blamed_thread,
             (dyn_addr as usize).wrapping_add(dynamic_length),
